@@ -177,14 +177,14 @@ theorem bool8_field {ε} (h : Bool8Field) :
     (h.tryFrom : R (Field ε)) = .ok (.mk h.name h.nullable .int8
       [("ARROW:extension:metadata".toList, []), ("ARROW:extension:name".toList, "arrow.bool8".toList)]) := rfl
 
-theorem shapeProd_pos (l : List Nat) (h : ∀ s ∈ l, 0 < s) : 0 < shapeProd l := by
+private theorem shapeProd_pos (l : List Nat) (h : ∀ s ∈ l, 0 < s) : 0 < shapeProd l := by
   induction l with
   | nil => simp [shapeProd]
   | cons s r ih =>
     simp only [shapeProd]
     exact Nat.mul_pos (h s (by simp)) (ih fun x hx => h x (List.mem_cons_of_mem _ hx))
 
-theorem shapeProd_zero (l : List Nat) (h : 0 ∈ l) : shapeProd l = 0 := by
+private theorem shapeProd_zero (l : List Nat) (h : 0 ∈ l) : shapeProd l = 0 := by
   induction l with
   | nil => cases h
   | cons s r ih =>
@@ -193,12 +193,12 @@ theorem shapeProd_zero (l : List Nat) (h : 0 ∈ l) : shapeProd l = 0 := by
     · rw [← h]; simp
     · rw [ih h]; simp
 
-theorem shapeProduct_zero (l : List Nat) : FixedShapeTensorField.shapeProduct 0 l = .ok 0 := by
+private theorem shapeProduct_zero (l : List Nat) : FixedShapeTensorField.shapeProduct 0 l = .ok 0 := by
   induction l with
   | nil => rfl
   | cons s r ih => simp [FixedShapeTensorField.shapeProduct, checkedMul, ih]
 
-theorem shapeProduct_pos : ∀ (l : List Nat) (acc : Nat), (∀ s ∈ l, 0 < s) → acc ≤ usizeMax →
+private theorem shapeProduct_pos : ∀ (l : List Nat) (acc : Nat), (∀ s ∈ l, 0 < s) → acc ≤ usizeMax →
     (acc * shapeProd l ≤ usizeMax → FixedShapeTensorField.shapeProduct acc l = .ok (acc * shapeProd l)) ∧
     (usizeMax < acc * shapeProd l → (FixedShapeTensorField.shapeProduct acc l).isErr = true) := by
   intro l
